@@ -49,6 +49,8 @@ class Client(kernel.Actor):
     async def ws_recv(self):
         import falcon
         self.recv_calls += 1
+        if self.recv_calls == 1:
+            self.first_recv_mono = self.sim.clock.mono
         now = self.sim.stamp()
         if self.frames and self.frames[-1]["t_done"] is None:
             self.frames[-1]["t_done"] = now
@@ -143,6 +145,7 @@ class Client(kernel.Actor):
         if it[0] == "send":
             self.frames.append({"i": self.pos - 1, "text": it[1], "t_deliver": self.sim.stamp(),
                                 "t_done": None, "wall_deliver": self.sim.clock.wall(), "wall_done": None,
+                                "mono_deliver": self.sim.clock.mono,
                                 "reg_before": list(self.world.registry().get(self.idx, [])), "reg_after": None})
             self.last_deliver_mono = self.sim.clock.mono
             self.recv_fut.set_result(it[1])
